@@ -275,9 +275,9 @@ fn static_checks<G: CurveTag>(col: &mut Collector, count: usize, beyond_u16: boo
         }
     }
     col.class("many-parties");
-    // one party, far along the chain (thorough tier): one step to beyond 2^17 generators, and the
-    // same capacity reached from a small object
-    if count > 64 {
+    // one party, far along the chain (thorough tier: every curve; quick tier: the rotating curve):
+    // one step to beyond 2^17 generators, and the same capacity reached from a small object
+    if count > 64 || beyond_u16 {
         let deep_n = 131_072 + 130;
         let eg = refgens::gens_uncached::<G>(b'G', 0, deep_n);
         let eh = refgens::gens_uncached::<G>(b'H', 0, deep_n);
